@@ -177,6 +177,10 @@ func (e *Engine) registerCore() {
 		p.side["permute"] = a[0].(BoolV).T.IsTrue()
 		return nil
 	}
+	I["vrt.PoolLeftovers"] = func(p *Path, a []Value, site ssa.Instruction) Value {
+		p.side["poolLeftovers"] = a[0].(BoolV).T.IsTrue()
+		return nil
+	}
 	I["vrt.PermuteOneMap"] = func(p *Path, a []Value, site ssa.Instruction) Value {
 		if a[0].(BoolV).T.IsTrue() {
 			p.side["permute"] = "one"
@@ -293,6 +297,17 @@ func (e *Engine) registerCore() {
 			}
 		}
 		return mkInt(int64(n))
+	}
+	I["builtin.clear"] = func(p *Path, a []Value, site ssa.Instruction) Value {
+		if mv, ok := a[0].(MapV); ok {
+			if mv.M != nil {
+				p.noteMapWrite(mv.M, site)
+				mv.M.Entries = nil
+			}
+			return nil
+		}
+		p.unsupported("clear of %T", a[0])
+		return nil
 	}
 	I["builtin.delete"] = func(p *Path, a []Value, site ssa.Instruction) Value {
 		m := a[0].(MapV)
